@@ -96,7 +96,7 @@ class Interconnect:
                     slv.axi.wraddr.awaddr ^= master.wraddr.awaddr.lsb(slv_addr_width)
                     slv.axi.wraddr.awprot ^= master.wraddr.awprot
 
-                    master.wrdata.ready ^= slv.axi.wraddr.ready
+                    master.wrdata.ready ^= slv.axi.wrdata.ready
                     slv.axi.wrdata.valid ^= master.wrdata.valid
                     slv.axi.wrdata.wdata ^= master.wrdata.wdata
                     slv.axi.wrdata.wstrb ^= master.wrdata.wstrb
